@@ -9,7 +9,7 @@ import numpy as np
 
 from . import samplercase
 from .. import env, workloads
-from ..instrument import digest_arrays
+from ..instrument import digest_arrays, points_array
 
 ID = 'C14'
 LEVEL = 'exploration'
@@ -49,9 +49,7 @@ def gen_cases(tier, seed):
 
 
 def _arr(pts):
-    if isinstance(pts, dict):
-        return np.column_stack([np.asarray(pts[k]) for k in sorted(pts)])
-    return np.asarray(pts)
+    return points_array(pts)
 
 
 def run_case(spec):
